@@ -31,6 +31,9 @@ type Fault struct {
 	Mode    string `json:"mode"`         // transient, persistent
 	Partial int    `json:"partial"`      // WriteAt: bytes applied before failing (0 = none)
 	Op      int    `json:"op,omitempty"` // i>0: Sel counts only the calls made during op #i-1 (falls back to the whole run if that op makes none)
+	// Plus is added to the resolved ordinal: with an aimed fault it reaches calls that exist only in the
+	// faulted run (the roll-back CommitState that follows a failed segment creation is that op's commit + 1)
+	Plus int `json:"plus,omitempty"`
 }
 
 type FOp struct {
@@ -140,6 +143,14 @@ func genTruncCase(t *rapid.T) Case {
 		f.Partial = rapid.SampledFrom([]int{0, 0, 8, 16, 1000}).Draw(t, "partial")
 	}
 	c.Faults = []Fault{f}
+	if rapid.IntRange(0, 5).Draw(t, "doubleFault") == 0 {
+		// the disk-full pattern: the new segment's creation fails after the metadata commit, and the commit
+		// that should roll the metadata back fails too; the WAL must then refuse writes, not lose them
+		c.Faults = []Fault{
+			{Kind: string(simfs.KCreate), Sel: 0, Mode: "transient", Op: target + 1, Partial: rapid.IntRange(0, 1).Draw(t, "leaveFile")},
+			{Kind: string(simfs.KCommitState), Sel: 0, Mode: rapid.SampledFrom([]string{"transient", "persistent"}).Draw(t, "rbMode"), Op: target + 1, Plus: 1},
+		}
+	}
 	c.EndCrash = rapid.SampledFrom([]string{"", "", "", "none", "all"}).Draw(t, "endCrash")
 	return c
 }
@@ -696,7 +707,7 @@ func runCaseFor(c Case, prop string) (res common.Result) {
 		if i := f.Op - 1; i >= 0 && i+1 < len(dry.opCounts) && simfs.Kind(f.Kind) != simfs.KReadAt {
 			lo, hi := dry.opCounts[i][simfs.Kind(f.Kind)], dry.opCounts[i+1][simfs.Kind(f.Kind)]
 			if hi > lo {
-				ord = lo + 1 + f.Sel%(hi-lo)
+				ord = lo + 1 + f.Sel%(hi-lo) + f.Plus
 				aimed = true
 			}
 		}
